@@ -1011,7 +1011,15 @@ let suite_e2e t v =
          stop changing" for that stretch; the tracker's per-name progress is then reset by
          interleaved parts of the two versions and may never complete (recorded finding) *)
       if profile = "mutate" then oracle v "not_confirmed_after_rewrite_in_flight" true
-      else oracle v "not_delivered_within_bound" false end
+      else begin
+        (* a file that disappears from the outgoing directory after its first parts went out is
+           outside the premise too ("source files stop changing"): its successors in the ordering
+           chain arrive, validate, and are HELD for a predecessor that will never be complete - in-order
+           delivery, as designed. Exempt exactly that: every undelivered file is validated and held. *)
+        let held = List.length (List.filter (fun n -> Filename.check_suffix n ".wait") (String.split_on_char ',' (f "staged_names"))) in
+        if profile = "vanish" && vanished && fi "eligible" - fi "delivered_ok" = held then ()
+        else oracle v "not_delivered_within_bound" false
+      end end
     else if not finished then
       (* everything delivered and released, but the graceful stop at the end never returns *)
       oracle v "pipeline_never_drains_after_vanished_file" vanished
